@@ -64,7 +64,12 @@ LEVEL_TEXT = (
     "Overlapping pool-parallel sub-searches: with a fresh `_futures` list per search every search reports only "
     "trials it dispatched itself and moves exactly like C08's single-search model, for every interleaving and "
     "completion order (pool_isolation, pool_refines_single_search); refuted for one shared list "
-    "(shared_list_counterexample). sequential_fresh is the one-thread case for the "
+    "(shared_list_counterexample). Object identity: with a new sub-optimizer object per call the tree read "
+    "from the registered object is the caller's own for every schedule at trial granularity "
+    "(fresh_suboptimizer_isolation, heap model); one recycled instance behind a lock is refuted "
+    "(shared_suboptimizer_counterexample). The interface's _PATH_CACHE hands out only paths of the query's "
+    "contraction given a separating key and an isolated layer below (iface_path_isolation). "
+    "sequential_fresh is the one-thread case for the "
     "non-caching AutoOptimizer with a fresh sub-optimizer per call; for the code as found (per-thread "
     "HyperOptimizer re-used, `best` persists) the statement is refuted by a concrete history "
     "(sequential_fresh_counterexample, DESIGN 7k) and proved under the guard 'at most one hard query per "
@@ -126,14 +131,16 @@ THEOREMS = [
 ]
 TRUSTED = [
     "Lean 4.33 kernel; axioms ⊆ {propext, Classical.choice, Quot.sound}",
-    "hand-written models Model/Reuse.lean, Model/ReuseNest.lean, Model/ReusePool.lean (+ Model/Hyper.lean) of "
-    "reusable.py:141-143,161-172,240-297, presets.py:41-123 and hyper.py:571-575,625-659, tied by the "
-    "forced-schedule correspondences on the explored schedules only",
+    "hand-written models Model/Reuse.lean, Model/ReuseNest.lean, Model/ReusePool.lean, Model/ReuseShared.lean, "
+    "Model/ReuseIface.lean (+ Model/Hyper.lean) of reusable.py:141-143,161-172,240-297, presets.py:41-123, "
+    "hyper.py:571-575,625-659 and interface.py:227,284-300, tied by the forced-schedule correspondences on the "
+    "explored schedules only",
     "CPython: single dict get/set/contains are atomic under the GIL; threading.get_ident() is unique "
     "among live threads",
     "the harness-side instrumentation (wrappers installed as instance attributes; the controller that "
-    "serialises threads; the registered hyper function 'verif-nest'; the deterministic executor) and the "
-    "AST fact extractor (gen_facts)",
+    "serialises threads and sets aside a thread that does not return within 3 s as blocked; the registered "
+    "hyper function 'verif-nest'; the deterministic executor; the sys.settrace line hook; the yielding dict put "
+    "in place of interface._PATH_CACHE for the duration of a run) and the AST fact extractor (gen_facts)",
 ]
 ASSUMPTIONS = [
     "yield points = after each shared access (hash_query, sub-search return, _suboptimizers store, _cache "
